@@ -15,6 +15,13 @@ import (
 // Client.Transport; under the executor (*http.Client).Do is a stub that calls
 // Transport.RoundTrip and wraps failures in *url.Error as the real one does.
 
+// vhTempErr: a validator verdict that calls itself temporary (must still end Connect at once)
+type vhTempErr struct{}
+
+func (vhTempErr) Error() string   { return "verif: temporary-looking validator error" }
+func (vhTempErr) Temporary() bool { return true }
+func (vhTempErr) Timeout() bool   { return true }
+
 var (
 	vhErrTransport = errors.New("verif: scripted transport failure")
 	vhErrValidator = errors.New("verif: response rejected by validator")
@@ -92,6 +99,7 @@ type vhConnEnv struct {
 	retryErrs    []error
 	tplMask      int
 	scriptOver   bool
+	verdict      error
 	getBodyFailed bool
 	attemptsAtGetBodyFailure int
 }
@@ -199,6 +207,11 @@ func vhConnect() {
 		Backoff:    Backoff{InitialInterval: initial, Multiplier: 1, Jitter: -1, MaxRetries: maxRetries},
 		ResponseValidator: func(r *http.Response) error {
 			if r.StatusCode != 200 {
+				if verifParam("TEMPVERDICT", 0) == 1 && verifChoose("verdict-kind", 2) == 1 {
+					env.verdict = vhTempErr{}
+					return env.verdict
+				}
+				env.verdict = vhErrValidator
 				return vhErrValidator
 			}
 			return nil
@@ -246,7 +259,7 @@ func vhConnect() {
 			return mkBody(), nil
 		}
 	}
-	c := &Connection{client: cl, request: req, callbacks: map[string]map[int]EventCallback{}, callbacksAll: map[int]EventCallback{}}
+	c := vhNewConn(&cl, req)
 	var events []Event
 	c.SubscribeToAll(func(e Event) { events = append(events, e) })
 
@@ -271,7 +284,7 @@ func vhConnect() {
 			case bodyResetFailed:
 				verifCover("C11/Connect/body-reset-failed")
 			case last.kind == 1:
-				verifAssert(ce.Err == vhErrValidator, "C11/Connect/validator-failure-returned-at-once")
+				verifAssert(ce.Err == env.verdict, "C11/Connect/validator-failure-returned-at-once")
 				verifCover("C11/Connect/validator-rejected")
 			case last.kind == 0:
 				verifAssert(ce.Err == last.transportErr, "C11/Connect/last-attempt-error-wrapped")
@@ -287,7 +300,22 @@ func vhConnect() {
 				}
 			}
 			if !bodyResetFailed && last.kind != 1 {
-				// retries exhausted: count the consecutive failures at the end of the script
+				// Connect gave up although nothing permanent happened: then the retries must
+				// really be exhausted - MaxRetries further attempts were made since the last
+				// successful connection (or since the first failure)
+				series := 0
+				for _, a := range env.attempts {
+					if a.kind == 2 {
+						series = 1
+					} else {
+						series++
+					}
+				}
+				if maxRetries > 0 {
+					verifAssert(series == maxRetries+1, "C11/Connect/returns-only-when-retries-are-exhausted")
+				} else {
+					verifAssert(series == 1, "C11/Connect/no-retries-configured-returns-after-first-failure")
+				}
 				verifCover("C11/Connect/retries-exhausted")
 			}
 		}
